@@ -20,7 +20,7 @@ RULE = ("family hom/two: random phase-matched setups (degenerate and non-degener
         "step counts for the three assert_eq!")
 RESIDUAL = ("rate_si <= 1 for unequal signal/idler axes is not a theorem (it needs N1'N2' <= N1N2; the search hunts for a counterexample); "
             "model fidelity and rounding are measured by the comparison")
-CHECKER_MODULES = ["Spdc.Real.HomLemmas"]
+CHECKER_MODULES = ["Spdc.Real.HomLemmas", "Spdc.Real.SchmidtLemmas", "Spdc.Real.TwoSrcLemmas"]
 
 
 def families(tier, seed):
